@@ -52,8 +52,15 @@ impl Gen {
     pub fn setup(&mut self) -> Vec<String> {
         let mut ops = vec![];
         let n = self.rng.range(2, 3) as usize;
+        // handles: plain, or handles that look like the key prefixes of the status store (`parents-<h>.json`,
+        // `children-<h>.json`, `repos-…`) and of one another
+        let family: [&str; 3] = match self.rng.below(4) {
+            0 => ["x", "parents-x", "children-x"],
+            1 => ["children-q", "q", "parents-children-q"],
+            _ => ["a", "b", "c"],
+        };
         for i in 0..n {
-            let name = ["a", "b", "c"][i].to_string();
+            let name = family[i].to_string();
             ops.push(format!("ca {name}"));
             let (parent, avail): (String, Vec<u32>) = if i == 0 {
                 ("ta".into(), (1..=6).collect())
